@@ -332,6 +332,15 @@ func (a *AEAD) Open(dst, nonce, ciphertext, additionalData []byte) ([]byte, erro
 			return append(dst, r.pt...), nil
 		}
 	}
+	// Like the real GCM and ChaCha20-Poly1305 implementations, a failed Open clears the part
+	// of dst's spare capacity it would have written the plaintext to ("the contents of dst, up
+	// to its capacity, may be overwritten").
+	if n := len(ct); cap(dst)-len(dst) >= n {
+		out := dst[len(dst) : len(dst)+n]
+		for i := range out {
+			out[i] = 0
+		}
+	}
 	return nil, errOpen
 }
 
